@@ -396,6 +396,15 @@ class Crazyflie():
                     with self._answer_patterns_lock:
                         self._answer_patterns[pattern] = new_timer
                         new_timer.start()
+                    if self.link is not link:
+                        # The link was closed (and the pending retries dropped) by another thread
+                        # since it was read above: this request belongs to the closed link, do not
+                        # leave a retry behind that would fire on the next link
+                        with self._answer_patterns_lock:
+                            if self._answer_patterns.get(pattern) is new_timer:
+                                del self._answer_patterns[pattern]
+                        new_timer.cancel()
+                        return
                 elif resend:
                     # Check if we have gotten an answer, if not try again
                     pattern = expected_reply
